@@ -290,6 +290,8 @@ func main() {
 		cmdRun(os.Args[2:])
 	case "list":
 		cmdList(os.Args[2:])
+	case "scan":
+		cmdScan(os.Args[2:])
 	default:
 		fmt.Fprintln(os.Stderr, "unknown command")
 		os.Exit(2)
